@@ -3,6 +3,7 @@ import HapModel.Drv.C05
 import HapModel.Drv.C12
 import HapModel.Drv.C13
 import HapModel.Drv.C14
+import HapModel.Drv.C17
 import HapModel.Drv.C18
 namespace Drv
 open Lean
@@ -20,6 +21,7 @@ def dispatch1 (op : String) (j : Json) : R Json :=
   | "bpEncode" => hBpEncode j
   | "bpParse" => hBpParse j
   | "bpRender" => hBpRender j
+  | "clump" => hClump j
   | _ => throw s!"unknown op {op}"
 
 /-- {"op":"batch","reqs":[…]} → {"resps":[…]} -/
